@@ -1,11 +1,14 @@
-"""E2E – end-to-end correspondence family of the pipeline model (DESIGN §11.2), attached to C08.
+"""E2E – end-to-end correspondence families of the pipeline model (DESIGN §11.2): `evaluate_e2e` (ranking stage, attached
+to C08, Props/Pipeline.lean) and `evaluate_summary` (ranking + summary stage, attached to C18, Props/PipelineSummary.lean).
 
 Implementation side: the REAL `outrank_task_conduct_ranking` / `estimate_importances_minibatches` on a generated CSV file,
 in-process with the synchronous stand-in pool (`stream_common.run_inprocess`), observed from outside: rows and triplets of
 every `compute_batch_ranking` call, invalid-line count, the grouped frame, `pairwise_ranks.tsv`.
-Model side: ONE driver request per file, `E2E rank B sub heuristic label targetOnly header [lines]` = Lean
+Model side: ONE driver request per file, `E2E rank B sub heuristic label targetOnly rnum rden header [lines]` = Lean
 `Pipeline.rankFile` at Float (csv automaton of C16 -> field-count test -> `Stream.run` -> per batch category codes, C06 pairs,
-C05 label orientation + dispatch over the regenerated table, MI model of C01/C03 -> mirrored rows -> median -> ascending sort).
+C05 label orientation + dispatch over the regenerated table, MI model of C01/C03/C04 -> mirrored rows -> median -> ascending
+sort).  `rnum / rden` = the exact rational of `np.float32(--mi_stratified_sampling_ratio)` (`mi_common.r_exact`; 1.0 = 1/1);
+the ratio cases use the float32 values of {0.5, 0.25, 0.9}.
 
 correspondence failure = model != implementation (pair set, invalid count, number of batches, a score outside the tolerance);
 oracle failure        = the implementation's own outputs violate a clause that is decided independently of the model:
@@ -16,7 +19,25 @@ oracle failure        = the implementation's own outputs violate a clause that i
   e2e-order        pairwise_ranks.tsv is not in ascending score order / is not the grouped frame;
   e2e-batch-score  the per-batch score of a (feature, label) pair != the heuristic on independently derived category codes
                    (ranks among sorted(set(column))): plug-in MI for MI-numba-3mr, H(F*|L) - H(F|L) with the LABEL as
-                   conditioning side for MI-numba-randomized (Lean spec ops `MI plugin` / `MI corrected` / `MI entropy`).
+                   conditioning side for MI-numba-randomized (Lean spec ops `MI plugin` / `MI corrected` / `MI entropy`);
+                   at a ratio below 1: the estimator on the per-stratum first-quota sample of those codes, label as the
+                   conditioning side (Lean op `MI est F L rnum rden cc`; Props/Pipeline `batch_score_subsampled`).
+
+Summary family (`evaluate_summary`): the same generated files through the real `outrank_task_conduct_ranking` FOLLOWED BY the
+real `outrank_task_result_summary` (what `--task all` does) vs ONE driver request `E2E summary …` = Lean
+`Pipeline.summaryOfFile` (C18 `summary` on the rows of the model's final table, scores through the exact Float -> Rat map).
+oracle failures (decided on the implementation's own files, independent of the model; Props/PipelineSummary):
+  e2es-crash       the summary task raised / wrote no feature_singles.tsv;
+  e2es-features    the names of feature_singles.tsv are not exactly the header's columns (label included), each once;
+  e2es-score       a score != the (normalised, when "MI" occurs in the heuristic name) score of the row (feature, label) of the
+                   implementation's own pairwise_ranks.tsv, recomputed with exact fractions (1e-9 relative);
+  e2es-sorted      feature_singles.tsv is not in descending score order;
+  e2es-normalised  "MI" in the heuristic name, max > min: best feature != 1.0 or worst != 0.0.
+correspondence failures: e2es-names / e2es-score / e2es-order (model vs file; tied scores compared as multisets: the file's order
+must be descending in the MODEL's scores up to the tolerance).  The NaN column (max = min) is observed and counted only.
+Tolerance of a normalised score: with t = the per-score bound below and R = max - min of the model's un-normalised scores,
+|n' - n| <= 4t / (R - 2t) (numerator and denominator each move by at most 2t, n' in [0, 1]) + 1e-9 relative; files with
+R <= 8t are counted as `range-below-tolerance` and their scores are not compared.
 
 Tolerance.  Per-batch scores: `mi_common.tol(n)` = 4e-6 * (1 + ln n), n = rows of the batch (float32 weights / terms inside
 numba, float64 accumulation; the bound of the C01-C03 harnesses).  Final scores: the median (any order statistic, and the mean
@@ -32,7 +53,7 @@ import random
 from fractions import Fraction
 
 import stream_common as sc
-from mi_common import tol
+from mi_common import r_exact, tol
 from vp_common import Atom, Ctx, line, run_driver
 
 HEURISTICS = ['MI-numba-randomized', 'MI-numba-3mr']
@@ -42,14 +63,26 @@ RULE_E2E = ('E2E family: CSV files from one PRNG, 3-5 columns (label anywhere; f
             'quotes, blanks and empty strings (rendered with random extra quoting), 2-4 batches with B in {40, 64, 150} or one B > 1030 '
             'file with a used tail, subsampling 1-3 with filler lines, 0-6 % malformed lines (too few / too many fields, empty, '
             'unbalanced quote, stray quote), LF / CRLF terminators, with / without final newline; MI-numba-randomized and MI-numba-3mr, '
-            'target-only and pairwise.')
+            'target-only and pairwise; sampling ratio 1.0 plus a block of files at the float32 ratios 0.5 / 0.25 / 0.9 (quota below, at '
+            'and above the stratum sizes, quota 0 when the conditioning column has many values).')
 ASSUMPTIONS_E2E = [
     'E2E: configuration of Model/Pipeline.lean (csv-raw, interaction order 1, no transformers / noise / focus / reference JSON, '
-    'sampling ratio 1.0, cap 2048 >= number of pairs, distinct ASCII column names, ASCII cells: the code reads the header with '
-    'the locale encoding and the data with latin1)',
+    'sampling ratio = exact rational of the float32 value, cap 2048 >= number of pairs, distinct ASCII column names, ASCII cells: '
+    'the code reads the header with the locale encoding and the data with latin1)',
     'E2E: lines are shipped to the model exactly as text-mode iteration yields them (io.StringIO(text, newline=None))',
-    'E2E: scores compared within 4e-6*(1+ln n) (+1e-12 for the median, see module docstring); structure compared exactly',
+    'E2E: scores compared within 4e-6*(1+ln n) (+1e-12 for the median, see module docstring; the same bound the C04 harness uses '
+    'below ratio 1, n = rows of the batch); structure compared exactly',
 ]
+RULE_E2ES = ('E2E summary family: the files of the E2E family (ratio 1.0 and the float32 ratios 0.5 / 0.25 / 0.9; MI-numba-randomized, '
+             'MI-numba-3mr and, for the branch without normalisation, max-value-coverage) through the real ranking task FOLLOWED BY the '
+             'real summary task; feature_singles.tsv vs Pipeline.summaryOfFile.')
+ASSUMPTIONS_E2ES = [
+    'E2E summary: configuration of Model/Pipeline.lean; the label contains no "-" and no other column has the label before its '
+    'first "-" (Props/PipelineSummary `NamesOK`, checked per file); `--interaction_order 1` (no aggregated file)',
+    'E2E summary: normalised scores within 4t/(R-2t) + 1e-9 relative (t = per-score bound, R = range of the model\'s un-normalised '
+    'scores), files with R <= 8t not compared; order of tied scores as multisets; the NaN column (max = min) is observed only',
+]
+RATIOS = [0.5, 0.25, 0.9]            # passed as Python floats; the code applies np.float32, the model gets mi_common.r_exact
 
 VOCAB = ['a', 'b', 'c', '0', '1', '10', '9', 'A', '', ' ', 'x y', 'b,c', 'a,"b"', 'say "hi"', '"', ',', ' lead', 'trail ', "it's",
          'a;b', '-1', '1.0', 'NaN', 'None', 'zz', 'Z', '{"k": 1, "j": [2, 3]}', 'tab\there', '""', 'q"q']
@@ -58,7 +91,18 @@ VOCAB = ['a', 'b', 'c', '0', '1', '10', '9', 'A', '', ' ', 'x y', 'b,c', 'a,"b"'
 # ---------------------------------------------------------------------------------------------
 # generation
 
-def gen_e2e_case(rng: random.Random, thorough=False, big=None):
+def gen_e2e_case(rng: random.Random, thorough=False, big=None, ratio=None, heuristics=None):
+    """`ratio` / `heuristics`: extra keys for the ratio block and the summary family (drawn AFTER everything else, so the
+    ratio-1 cases of a seed are the ones this generator always produced)"""
+    case = _gen_e2e_case(rng, thorough, big)
+    if heuristics is not None:
+        case['heuristic'] = rng.choice(heuristics)
+    if ratio is not None:
+        case['ratio'] = ratio
+    return case
+
+
+def _gen_e2e_case(rng: random.Random, thorough=False, big=None):
     if big is None:
         big = rng.random() < (0.06 if thorough else 0.0)
     if big:
@@ -198,7 +242,19 @@ def file_text(case, cols, lines):
 
 def argkw(case, label):
     return dict(minibatch_size=case['B'], subsampling=case['sub'], heuristic=case['heuristic'], label_column=label,
-                target_ranking_only='True' if case['target_only'] else 'False', combination_number_upper_bound=2048)
+                target_ranking_only='True' if case['target_only'] else 'False', combination_number_upper_bound=2048,
+                mi_stratified_sampling_ratio=float(case.get('ratio', 1.0)))
+
+
+def ratio_of(case):
+    """exact rational of the float32 value `numba_mi` hands to the estimator"""
+    import numpy as np
+    return r_exact(np.float32(case.get('ratio', 1.0)))
+
+
+def cfg_args(case, label):
+    r = ratio_of(case)
+    return [case['B'], case['sub'], case['heuristic'], label, bool(case['target_only']), r.numerator, r.denominator]
 
 
 def corpus_e2e():
@@ -208,6 +264,13 @@ def corpus_e2e():
     text = 'label,f0,f1,f2\n' + '\n'.join(rows) + '\n'
     base = {'e2e': 1, 'cols': ['label', 'f0', 'f1', 'f2'], 'label': 'label', 'text': text, 'B': 40, 'sub': 1}
     return [dict(base, heuristic=h, target_only=t) for h in HEURISTICS for t in (True, False)]
+
+
+def corpus_ratio():
+    """the fixed file at every ratio: 40-row batches, label with 2 values -> quota 10 / 5 / 18 per label value"""
+    base = corpus_e2e()[0]
+    return [dict(base, heuristic=h, target_only=t, ratio=r) for r in RATIOS for (h, t) in
+            (('MI-numba-randomized', True), ('MI-numba-3mr', False))]
 
 
 # ---------------------------------------------------------------------------------------------
@@ -241,30 +304,34 @@ def short(case):
     return {k: v for k, v in case.items() if k != 'text' or len(v) < 4000}
 
 
-def observe(case):
+def observe(case, summary=False):
     cols, label, lines = build_e2e(case)
     text = file_text(case, cols, lines)
-    rec = sc.run_inprocess(text, **argkw(case, label))
+    rec = sc.run_inprocess(text, summary=summary, **argkw(case, label))
     return cols, label, text, rec
 
 
 def requests_for(case, cols, label, text, rec):
     fl = list(io.StringIO(text, newline=None))
     header, data = (fl[0], fl[1:]) if fl else ('', [])
-    req = [line(Atom('E2E'), Atom('rank'), case['B'], case['sub'], case['heuristic'], label, bool(case['target_only']), header, data)]
+    req = [line(Atom('E2E'), Atom('rank'), *cfg_args(case, label), header, data)]
+    r = ratio_of(case)
     # independent per-batch specification of the (feature, label) scores
     spec = []
     li = cols.index(label)
     for bi, b in enumerate(rec.batches):
         rows = b['rows']
-        if not rows or any(len(r) != len(cols) for r in rows):
+        if not rows or any(len(x) != len(cols) for x in rows) or case['heuristic'] not in HEURISTICS:
             continue
-        L = indep_codes([r[li] for r in rows])
+        L = indep_codes([x[li] for x in rows])
         for j, c in enumerate(cols):
             if c == label:
                 continue
-            F = indep_codes([r[j] for r in rows])
-            if case['heuristic'] == 'MI-numba-3mr':
+            F = indep_codes([x[j] for x in rows])
+            if r < 1:
+                spec.append((bi, c, 'est', len(req)))
+                req.append(line(Atom('MI'), Atom('est'), F, L, r.numerator, r.denominator, case['heuristic'] == 'MI-numba-randomized'))
+            elif case['heuristic'] == 'MI-numba-3mr':
                 spec.append((bi, c, 'plugin', len(req)))
                 req.append(line(Atom('MI'), Atom('plugin'), F, L))
             elif F == L:
@@ -280,6 +347,8 @@ def judge(ctx: Ctx, case, cols, label, rec, rep, spec, oracle_only=False):
     sc_case = short(case)
     h, tO = case['heuristic'], case['target_only']
     tag = f"E2E B={case['B']} sub={case['sub']} {h} {'target-only' if tO else 'pairwise'} cols={cols}"
+    if case.get('ratio', 1.0) != 1.0:
+        tag += f" ratio={case['ratio']!r}"
     if rec.error:
         ctx.oracle_fail('e2e-crash', f'{tag}: the ranking task raised {rec.error}', sc_case)
         return
@@ -332,7 +401,9 @@ def judge(ctx: Ctx, case, cols, label, rec, rep, spec, oracle_only=False):
         for s in got:
             if not (finite(wantv) and abs(s - wantv) <= tb):
                 what = {'plugin': 'plug-in MI of the two coded columns', 'entropy': 'entropy of the (identical) coded columns',
-                        'corrected': f'H(F*|L) - H(F|L) with the label {label!r} as conditioning side'}[kind]
+                        'corrected': f'H(F*|L) - H(F|L) with the label {label!r} as conditioning side',
+                        'est': f'estimator on the per-stratum first-quota sample (ratio {ratio_of(case)}) of the two coded columns, '
+                               f'label {label!r} as conditioning side,'}[kind]
                 ctx.oracle_fail('e2e-batch-score', f'{tag}: batch #{bi} ({len(rec.batches[bi]["rows"])} rows) scores ({c!r}, {label!r}) = {s!r}, '
                                 f'but the {what} is {wantv!r} (tol {tb:.1e})', sc_case)
                 return
@@ -359,21 +430,31 @@ def judge(ctx: Ctx, case, cols, label, rec, rep, spec, oracle_only=False):
         ctx.corr_fail('e2e-model-order', f'{tag}: the model table is not ascending', sc_case)
 
 
-def account(ctx, case, cols, rec):
+def account(ctx, case, cols, rec, label=None):
     ctx.evaluations += 1
     ctx.count('e2e:files')
     ctx.count('e2e:' + case['heuristic'])
     ctx.count('e2e:mode:' + ('target' if case['target_only'] else 'pairwise'))
     ctx.count(f'e2e:B={"big" if case["B"] > 1030 else case["B"]}')
     ctx.count(f'e2e:sub={case["sub"]}')
+    ctx.count(f'e2e:ratio={case.get("ratio", 1.0)!r}')
+    if case.get('ratio', 1.0) != 1.0 and rec.batches and label in cols:
+        # does the sub-sampling bite?  quota of the (feature, label) calls of the first batch vs the label's stratum sizes
+        rows = rec.batches[0]['rows']
+        if rows and all(len(x) == len(cols) for x in rows):
+            col = [x[cols.index(label)] for x in rows]
+            r = ratio_of(case)
+            q = ((r.numerator * len(col)) // r.denominator) // len(set(col))
+            ctx.count('e2e:ratio:quota=0' if q == 0 else 'e2e:ratio:quota<every-label-stratum' if q < min(col.count(v) for v in set(col))
+                      else 'e2e:ratio:quota>=some-label-stratum')
     ctx.count(f'e2e:cols={len(cols)}')
     ctx.count('e2e:batches=%d' % len(rec.batches))
     ctx.count('e2e:invalid>0' if rec.invalid else 'e2e:invalid=0')
     if rec.batches and len(rec.batches[-1]['rows']) < case['B']:
         ctx.count('e2e:tail-used')
     if len(rec.batches) >= 2:
-        ctx.nontrivial.add(('e2e', case.get('gseed', case.get('heuristic')), case['heuristic'], case['target_only']))
-    ctx.sample({'e2e': True, 'B': case['B'], 'sub': case['sub'], 'heuristic': case['heuristic'], 'cols': cols,
+        ctx.nontrivial.add(('e2e', case.get('gseed', case.get('heuristic')), case['heuristic'], case['target_only'], case.get('ratio', 1.0)))
+    ctx.sample({'e2e': True, 'B': case['B'], 'sub': case['sub'], 'heuristic': case['heuristic'], 'cols': cols, 'ratio': case.get('ratio', 1.0),
                 'batch_sizes': [len(b['rows']) for b in rec.batches], 'invalid': rec.invalid, 'final_head': (rec.final or [])[:2]}, limit=8)
 
 
@@ -389,7 +470,7 @@ def evaluate_e2e(ctx: Ctx, cases, oracle_only=False, do_shrink=True):
         n_or, n_co = len(ctx.oracle_failures), len(ctx.corr_failures)
         local = rep[a:a + n]
         judge(ctx, c, cols, label, rec, local, [(bi, cc, kind, at) for bi, cc, kind, at in spec], oracle_only)
-        account(ctx, c, cols, rec)
+        account(ctx, c, cols, rec, label)
         if not oracle_only:
             ctx.traces += 1
         if do_shrink and 'text' not in c:
@@ -407,8 +488,9 @@ def fails_same(case, failure):
     return next((f for f in pool if f.key == failure.key), None)
 
 
-def shrink(case, failure):
+def shrink(case, failure, fails=None):
     """shortest failing prefix of the data lines (bisection; not monotone, best effort)"""
+    fails = fails or fails_same
     _, _, lines = build_e2e(case)
     lo, hi = 0, len(lines)
     best = None
@@ -416,7 +498,7 @@ def shrink(case, failure):
         if hi - lo <= 1:
             break
         mid = (lo + hi) // 2
-        f = fails_same({**case, 'take': mid}, failure)
+        f = fails({**case, 'take': mid}, failure)
         if f is not None:
             hi, best = mid, f
         else:
@@ -429,8 +511,212 @@ def n_cases(thorough):
     return 300 if thorough else 25
 
 
+def n_ratio_cases(thorough):
+    return 90 if thorough else 12
+
+
 def gen_cases(rng, thorough):
     n = n_cases(thorough)
     cases = [gen_e2e_case(rng, thorough) for _ in range(n - 1)]
     cases.append(gen_e2e_case(rng, thorough, big=True))        # one B > 1030 file with a used tail in every run
+    # the ratio block (drawn after the ratio-1 cases): every ratio equally often, one B > 1030 file among them when thorough
+    m = n_ratio_cases(thorough)
+    cases += [gen_e2e_case(rng, thorough, big=(thorough and k == 0), ratio=RATIOS[k % len(RATIOS)]) for k in range(m)]
     return cases
+
+
+# ---------------------------------------------------------------------------------------------
+# summary family (attached to C18): ranking task, then summary task, on one file
+
+SUMMARY_HEURISTICS = ['MI-numba-randomized', 'MI-numba-3mr', 'MI-numba-randomized', 'MI-numba-3mr', 'max-value-coverage']
+
+
+def corpus_summary():
+    base = corpus_e2e()[0]
+    out = [dict(base, e2es=1, heuristic=h, target_only=t) for h in ('MI-numba-randomized', 'MI-numba-3mr', 'max-value-coverage')
+           for t in (True, False)]
+    out += [dict(base, e2es=1, heuristic='MI-numba-randomized', target_only=True, ratio=r) for r in RATIOS]
+    # max = min: two features with identical contents, label independent of nothing else -> identical scores? (the label scores its
+    # own entropy, so a NaN column needs a single feature equal to the label): label and f0 identical columns
+    rows = [f'{i % 3},{i % 3}' for i in range(120)]
+    out.append({'e2e': 1, 'e2es': 1, 'cols': ['label', 'f0'], 'label': 'label', 'text': 'label,f0\n' + '\n'.join(rows) + '\n', 'B': 40,
+                'sub': 1, 'heuristic': 'MI-numba-randomized', 'target_only': True})
+    return out
+
+
+def n_summary_cases(thorough):
+    return 240 if thorough else 30
+
+
+def gen_summary_cases(rng, thorough):
+    n = n_summary_cases(thorough)
+    ratios = [None, None, None] + RATIOS                      # half of the files at ratio 1.0
+    cases = [gen_e2e_case(rng, thorough, big=(thorough and k == 0), ratio=ratios[k % len(ratios)], heuristics=SUMMARY_HEURISTICS)
+             for k in range(n)]
+    for c in cases:
+        c['e2es'] = 1
+    return cases
+
+
+def names_ok(label, cols):
+    """Props/PipelineSummary `NamesOK`"""
+    return '-' not in label and all(c == label or c.split('-')[0] != label for c in cols)
+
+
+def fnorm(u):
+    """exact min-max normalisation of {name: Fraction}; None when max = min"""
+    mn, mx = min(u.values()), max(u.values())
+    return None if mn == mx else {k: (v - mn) / (mx - mn) for k, v in u.items()}
+
+
+def judge_summary(ctx: Ctx, case, cols, label, rec, rep, oracle_only=False):
+    sc_case = short(case)
+    h = case['heuristic']
+    mi = 'MI' in h
+    tag = (f"E2E-summary B={case['B']} sub={case['sub']} {h} {'target-only' if case['target_only'] else 'pairwise'} "
+           f"ratio={case.get('ratio', 1.0)!r} cols={cols} label={label!r}")
+    if rec.error:
+        ctx.oracle_fail('e2es-crash', f'{tag}: the ranking task raised {rec.error}', sc_case)
+        return
+    if rec.final is None:                                    # no batch was ranked: the ranking task exits before writing anything
+        ctx.count('e2es:no-ranking-output')
+        return
+    if rec.summary_error or rec.singles is None:
+        ctx.oracle_fail('e2es-crash', f'{tag}: outrank_task_result_summary on the folder the ranking task wrote '
+                        f'{"raised " + rec.summary_error if rec.summary_error else "wrote no feature_singles.tsv"}', sc_case)
+        return
+    if not names_ok(label, cols) or len(set(cols)) != len(cols):
+        ctx.count('e2es:excluded:names-precondition')
+        return
+    out = rec.singles
+    if any(not finite(s) for _, _, s in rec.final):
+        ctx.count('e2es:skipped-nonfinite')
+        return
+    # ---------------- oracle: the clauses on the implementation's own two files (exact fractions)
+    names = [n for n, _ in out]
+    if sorted(names) != sorted(cols):
+        ctx.oracle_fail('e2es-features', f'{tag}: feature_singles.tsv lists {names}; the columns of the header (each scored against the '
+                        f'label, the label itself included) are {cols}', sc_case)
+        return
+    fin = {(a, b): s for a, b, s in rec.final}
+    if any((c, label) not in fin for c in cols):
+        ctx.oracle_fail('e2es-features', f'{tag}: pairwise_ranks.tsv has no row for {[c for c in cols if (c, label) not in fin][:3]} against the label', sc_case)
+        return
+    u = {c: Fraction(fin[(c, label)]) for c in cols}       # the group {(c, label), (label, c)} holds this one value (checked by the E2E family)
+    want = fnorm(u) if mi else u
+    allnan = all(math.isnan(v) for _, v in out)
+    if want is None:
+        ctx.count('e2es:max=min: NaN column observed' if allnan else 'e2es:max=min: other outcome observed')
+        return
+    if any(math.isnan(v) for _, v in out):
+        if mi and (max(u.values()) - min(u.values())) < Fraction(1, 10 ** 12) * (1 + max(abs(x) for x in u.values())):
+            ctx.count('e2es:max~min: NaN column observed')
+            return
+        ctx.oracle_fail('e2es-score', f'{tag}: feature_singles.tsv has a NaN score although the scores against the label differ: {out}', sc_case)
+        return
+    rng_ = (max(u.values()) - min(u.values())) if mi else Fraction(1)
+    scale_u = max(abs(x) for x in u.values())
+    ill = mi and rng_ < Fraction(1, 10 ** 6) * scale_u       # read_csv's parser (not correctly rounded) is amplified by 1 / range
+    if ill:
+        ctx.count('e2es:oracle-skipped:range<1e-6*scale')
+    else:
+        for n, v in out:
+            e = want[n]
+            if not abs(Fraction(v) - e) <= Fraction(1, 10 ** 9) * (1 + abs(e)):
+                what = 'normalised score (s - min) / (max - min)' if mi else 'score'
+                ctx.oracle_fail('e2es-score', f'{tag}: feature {n!r}: pairwise_ranks.tsv scores ({n!r}, {label!r}) = {fin[(n, label)]!r}, '
+                                f'so its {what} is {float(e)!r}; feature_singles.tsv has {v!r} '
+                                f'(min {float(min(u.values()))!r}, max {float(max(u.values()))!r})', sc_case)
+                return
+    for (n1, v1), (n2, v2) in zip(out, out[1:]):
+        if not v1 >= v2:
+            ctx.oracle_fail('e2es-sorted', f'{tag}: feature_singles.tsv is not in descending score order: {n1!r}={v1!r} before {n2!r}={v2!r}', sc_case)
+            return
+    if mi and out and (out[0][1] != 1.0 or out[-1][1] != 0.0):
+        ctx.oracle_fail('e2es-normalised', f'{tag}: "MI" occurs in the heuristic name and the scores differ, but the best feature has '
+                        f'{out[0][1]!r} (must be 1) and the worst {out[-1][1]!r} (must be 0): {out}', sc_case)
+        return
+    if oracle_only:
+        return
+    # ---------------- correspondence: Pipeline.summaryOfFile vs the file
+    m_sum, m_table = rep
+    if any(not finite(x[2]) for x in m_table):
+        ctx.count('e2es:skipped-nonfinite')
+        return
+    mt = {(a, b): s for a, b, s in m_table}
+    mu = {c: Fraction(mt[(c, label)]) for c in cols if (c, label) in mt}
+    if isinstance(m_sum, Atom):                              # the model's medians are all equal; the implementation's differ in the last bits
+        ctx.count('e2es:model-degenerate, implementation not (observed)')
+        return
+    md = {n: Fraction(v) for n, v in m_sum}
+    if len(md) != len(m_sum) or sorted(md) != sorted(names):
+        ctx.corr_fail('e2es-names', f'{tag}: feature_singles.tsv lists {names}, the model {[n for n, _ in m_sum]}', sc_case)
+        return
+    nmax = max([len(b['rows']) for b in rec.batches] + [1])
+    t = Fraction(tol(nmax) + 1e-12)
+    if mi:
+        R = max(mu.values()) - min(mu.values()) if mu else Fraction(0)
+        if R <= 8 * t:
+            ctx.count('e2es:range-below-tolerance')
+            return
+        bound = 4 * t / (R - 2 * t)
+    else:
+        bound = t
+    worst = max(out, key=lambda p: abs(Fraction(p[1]) - md[p[0]]))
+    d = abs(Fraction(worst[1]) - md[worst[0]])
+    if d > bound + Fraction(1, 10 ** 9) * (1 + abs(md[worst[0]])):
+        ctx.corr_fail('e2es-score', f'{tag}: feature {worst[0]!r} has {worst[1]!r} in feature_singles.tsv, the model says {float(md[worst[0]])!r} '
+                      f'(difference {float(d):.3e} > bound {float(bound):.2e})', sc_case)
+        return
+    slack = 2 * bound + Fraction(1, 10 ** 9)
+    for i in range(len(names)):
+        for j in range(i + 1, len(names)):
+            if md[names[i]] + slack < md[names[j]]:
+                ctx.corr_fail('e2es-order', f'{tag}: feature_singles.tsv lists {names[i]!r} before {names[j]!r}, the model scores them '
+                              f'{float(md[names[i]])!r} < {float(md[names[j]])!r}', sc_case)
+                return
+    ms = [Fraction(v) for _, v in m_sum]
+    if any(x < y for x, y in zip(ms, ms[1:])):
+        ctx.corr_fail('e2es-model-order', f'{tag}: the model table is not descending', sc_case)
+
+
+def account_summary(ctx, case, cols, rec):
+    ctx.evaluations += 1
+    ctx.count('e2es:files')
+    ctx.count('e2es:' + case['heuristic'])
+    ctx.count('e2es:mode:' + ('target' if case['target_only'] else 'pairwise'))
+    ctx.count(f'e2es:ratio={case.get("ratio", 1.0)!r}')
+    ctx.count('e2es:batches=%d' % len(rec.batches))
+    if rec.singles and len(rec.batches) >= 2 and len({v for _, v in rec.singles}) >= 3:
+        ctx.nontrivial.add(('e2es', case.get('gseed', case.get('heuristic')), case['heuristic'], case['target_only'], case.get('ratio', 1.0)))
+    ctx.sample({'e2e_summary': True, 'B': case['B'], 'heuristic': case['heuristic'], 'ratio': case.get('ratio', 1.0), 'cols': cols,
+                'batch_sizes': [len(b['rows']) for b in rec.batches], 'feature_singles': (rec.singles or [])[:5]}, limit=8)
+
+
+def fails_same_summary(case, failure):
+    sub = Ctx('C18', 'quick')
+    evaluate_summary(sub, [case], oracle_only=(failure.kind == 'oracle'), do_shrink=False)
+    pool = sub.oracle_failures if failure.kind == 'oracle' else sub.corr_failures
+    return next((f for f in pool if f.key == failure.key), None)
+
+
+def evaluate_summary(ctx: Ctx, cases, oracle_only=False, do_shrink=True):
+    obs = [observe(c, summary=True) for c in cases]
+    req = []
+    for c, (cols, label, text, rec) in zip(cases, obs):
+        fl = list(io.StringIO(text, newline=None))
+        header, data = (fl[0], fl[1:]) if fl else ('', [])
+        req.append(line(Atom('E2E'), Atom('summary'), *cfg_args(c, label), header, data))
+    rep = run_driver(req) if not oracle_only else [None] * len(req)
+    for c, (cols, label, text, rec), r in zip(cases, obs, rep):
+        n_or, n_co = len(ctx.oracle_failures), len(ctx.corr_failures)
+        judge_summary(ctx, c, cols, label, rec, r, oracle_only)
+        account_summary(ctx, c, cols, rec)
+        if not oracle_only:
+            ctx.traces += 1
+        if do_shrink and 'text' not in c:
+            new = ctx.oracle_failures[n_or:] + ctx.corr_failures[n_co:]
+            for f in new[:1]:
+                pool = ctx.oracle_failures if f.kind == 'oracle' else ctx.corr_failures
+                if not any(g.key == f.key for g in pool if g is not f):       # only the first failure of a key is shrunk
+                    shrink(c, f, fails_same_summary)
